@@ -106,9 +106,12 @@ func TestC07(t *testing.T) {
 				defer wg.Done()
 				seen := map[string]bool{}
 				var evals, matches int
-				for pi := w; pi < len(pats); pi += nw {
+				// every worker walks ALL patterns in the same order and takes its own share of the names, so the
+				// same pattern is being matched against different names on all processors at once
+				for pi := 0; pi < len(pats); pi++ {
 					pat := pats[pi]
-					for _, name := range names {
+					for ni := w; ni < len(names); ni += nw {
+						name := names[ni]
 						want := refmodel.GlobMatch(pat, name)
 						got, pan := safeMatch(pat, name)
 						evals++
@@ -139,6 +142,38 @@ func TestC07(t *testing.T) {
 	}
 	r.Extra("exhaustive_spaces", spaceDesc)
 	r.Exhaustive(true)
+
+	// ---- concurrent part: a handful of patterns and names, asked about over and over from all processors ----
+	if r.Only < 0 {
+		cpats := []string{"*", "a*", "*b", "a*b", "dev/*", "*/key", "a", "d*v/*y"}
+		cnames := []string{"a", "b", "ab", "axb", "dev/key", "dev/", "x/key", "ba", ""}
+		var cwg sync.WaitGroup
+		per := r.N(60000, 600000)
+		for w := 0; w < runtime.NumCPU(); w++ {
+			cwg.Add(1)
+			go func(w int) {
+				defer cwg.Done()
+				crng := r.Rand(uint64(500 + w))
+				bad := 0
+				for i := 0; i < per && bad < 2; i++ {
+					pat, name := cpats[crng.IntN(len(cpats))], cnames[crng.IntN(len(cnames))]
+					if i%3 != 0 {
+						name = cnames[(i/7)%len(cnames)] // the same few names in bursts
+					}
+					want := refmodel.GlobMatch(pat, name)
+					got, pan := safeMatch(pat, name)
+					if pan != nil || got != want {
+						bad++
+						r.Violation("match-differs-under-concurrency", -1, fmt.Sprintf("while %d goroutines were matching the same patterns: Secret(%q).Match(%q) = %t (panic %v), glob semantics say %t", runtime.NumCPU(), pat, name, got, pan, want), map[string]any{"pattern": pat, "name": name})
+					}
+				}
+				r.Eval(per)
+				r.Count("concurrent_matches", per)
+			}(w)
+		}
+		cwg.Wait()
+		r.Distinct("concurrent repeated queries")
+	}
 
 	// ---- random Unicode part ----
 	nRand := r.N(20000, 500000)
@@ -326,6 +361,6 @@ func TestC07(t *testing.T) {
 			}
 		}
 	}
-	r.Require("exhaustive_pairs", "exhaustive_pairs_matching", "random_pairs", "random_pairs_matching", "ruleset_allowed", "ruleset_refused", "ruleset_decisions_via_json")
+	r.Require("exhaustive_pairs", "exhaustive_pairs_matching", "random_pairs", "random_pairs_matching", "ruleset_allowed", "ruleset_refused", "ruleset_decisions_via_json", "concurrent_matches")
 	r.Rule("exhaustive: every (pattern,name) pair of the bounded spaces listed in exhaustive_spaces; random: Unicode patterns up to ~40 pieces with names derived by substituting each '*' and optionally perturbing; rule sets of 0-4 rules with 0-3 actions/patterns. A case is non-trivial/distinct by (number of stars capped at 3, leading star, trailing star, has regexp metacharacter, has newline, expected outcome) resp. (rule-set size, expected decision)")
 }
